@@ -471,6 +471,11 @@ class PoolLike:
     def map(self, f, xs):
         return list(map(f, xs))
 
+    def __reduce__(self):
+        # like multiprocessing / multiprocess pools: a pool cannot be pickled, so anything that still
+        # references it when the sampler is pickled (save_every) makes the save fail
+        raise NotImplementedError("pool objects cannot be passed between processes or pickled")
+
 
 def _target(x):
     return -0.5 * float(np.sum((x - 0.5) ** 2)) * 3.0
